@@ -146,6 +146,26 @@ func check(c Case, o *vf.Obs) error {
 	if err != nil || valid2 != valid {
 		return fmt.Errorf("same certificate checked twice on the same problem: first %v, then %v (err %v)", valid, valid2, err)
 	}
+	// the used problem must also answer like a fresh one on *other* certificates: the bare empty clause,
+	// and the first half of this certificate, through the other entry point
+	other := c
+	if c.Entry == "reader" {
+		other.Entry = "chan"
+	} else {
+		other.Entry = "reader"
+	}
+	for _, cert := range [][][]int{{{}}, c.Cert[:len(c.Cert)/2]} {
+		other.Cert = cert
+		fresh, err := problem(c)
+		if err != nil {
+			return err
+		}
+		want, err1 := runChecker(other, fresh)
+		got, err2 := runChecker(other, pb)
+		if err1 != nil || err2 != nil || got != want {
+			return fmt.Errorf("after checking %v, the same problem judges the certificate %v %v; a fresh copy of the problem judges it %v (errors %v, %v)", c.Cert, cert, got, want, err2, err1)
+		}
+	}
 	return nil
 }
 
@@ -186,6 +206,19 @@ func checkSubset(c SubsetCase, o *vf.Obs) error {
 	}
 	if !reflect.DeepEqual(pb.Clauses[:pb.NbClauses], before) || pb.NbClauses != len(before) {
 		return fmt.Errorf("UnsatSubset changed the caller's problem: %v -> %v", before, pb.Clauses)
+	}
+	// the problem is reusable: further extractions from the same value obey the same predicates
+	for call := 2; call <= 3; call++ {
+		sub, err := pb.UnsatSubset()
+		if err != nil {
+			return fmt.Errorf("UnsatSubset call %d on the same problem failed: %v", call, err)
+		}
+		if !oracle.SubMultiset(sub.Clauses[:sub.NbClauses], c.Clauses) {
+			return fmt.Errorf("UnsatSubset call %d on the same problem: %v is not a sub-multiset of the input", call, sub.Clauses)
+		}
+		if oracle.CNFSat(c.N, sub.Clauses[:sub.NbClauses]) {
+			return fmt.Errorf("UnsatSubset call %d on the same problem returned a satisfiable subset %v", call, sub.Clauses)
+		}
 	}
 	return nil
 }
